@@ -22,8 +22,16 @@ SET = f"{OPT}.set_options"
 COPY_FUNCS = {"dict", "copy.copy", "copy.deepcopy"}
 
 
-def _is_copy_of(ctx, module, expr, table: str) -> bool:
+def _is_copy_of(ctx, module, expr, table: str, _depth: int = 0) -> bool:
     """expr is a detached copy of the option table ``table``."""
+    if isinstance(expr, ast.Call) and not is_S(expr) and not expr.args and not expr.keywords and _depth < 3 \
+            and isinstance(expr.func, ast.Name):
+        # a private zero-argument function whose every return is such a copy
+        binding = ctx.res.resolve_expr(module, expr.func)
+        if binding.kind == "def" and binding.node.name != "get_options":
+            returns = [n.value for n in ast.walk(binding.node) if isinstance(n, ast.Return)]
+            if returns and all(v is not None and _is_copy_of(ctx, binding.module, v, table, _depth + 1) for v in returns):
+                return True
     if isinstance(expr, ast.Call) and not is_S(expr):
         if isinstance(expr.func, ast.Attribute) and expr.func.attr == "copy" and not expr.args:
             return ctx.dotted(module, expr.func.value) == table
@@ -94,6 +102,21 @@ def _o1_o2(ctx, result, module):
         if isinstance(cur, ast.Try) and cur.finalbody:
             tries.append(cur)
     ok_struct = bool(tries)
+    # equivalent idiom: the restore is registered on an ExitStack whose with-block encloses the yield
+    stack_names = set()
+    cur = yields[0]
+    while cur is not func:
+        cur = cur._parent
+        if isinstance(cur, ast.With):
+            for item in cur.items:
+                if isinstance(item.context_expr, ast.Call) and U(item.context_expr.func).split(".")[-1] == "ExitStack" \
+                        and isinstance(item.optional_vars, ast.Name):
+                    stack_names.add(item.optional_vars.id)
+    callbacks = [c for c in ast.walk(func) if isinstance(c, ast.Call) and isinstance(c.func, ast.Attribute)
+                 and c.func.attr == "callback" and isinstance(c.func.value, ast.Name) and c.func.value.id in stack_names
+                 and c.args and ctx.dotted(module, c.args[0]) == SET]
+    if callbacks:
+        ok_struct = True
     result.ob("O2 yield inside try/finally", ok_struct, module.loc(yields[0]), "")
     if not ok_struct:
         result.add(Finding("R-OPT", module, qual, yields[0],
@@ -134,6 +157,14 @@ def _o1_o2(ctx, result, module):
                             snapshot_names.add(target.id)
                             snapshot_expr = U(value)
             mut = None
+            if step.kind == "stmt":
+                for sub in ast.walk(step.node):
+                    if sub in callbacks:
+                        expanded_cb = step.expand(sub)
+                        starstar = [kw.value for kw in expanded_cb.keywords if kw.arg is None]
+                        if snapshot_expr is not None and len(starstar) == 1 and len(expanded_cb.keywords) == 1 \
+                                and len(expanded_cb.args) == 1 and U(starstar[0]) == snapshot_expr:
+                            restores.append(10 ** 9)  # runs when the stack unwinds, after everything in the block
             for call in _calls(ctx, module, step, SET):
                 expanded = step.expand(call)
                 starstar = [kw.value for kw in expanded.keywords if kw.arg is None]
@@ -961,7 +992,49 @@ def _owner(node, func):
     return func
 
 
+def _discover_tables(ctx) -> None:
+    """The option tables are found by role, not by name: DEFAULTS is the module-level dict literal of numpoly/option.py
+    that lists the options, TABLE the module-level name that set_options writes to."""
+    global TABLE, DEFAULTS
+    module = ctx.repo.module(OPT)
+    defaults = None
+    for node in module.tree.body:
+        target = value = None
+        if isinstance(node, ast.Assign) and len(node.targets) == 1 and isinstance(node.targets[0], ast.Name):
+            target, value = node.targets[0].id, node.value
+        elif isinstance(node, ast.AnnAssign) and isinstance(node.target, ast.Name) and node.value is not None:
+            target, value = node.target.id, node.value
+        if isinstance(value, ast.Dict) and any(isinstance(k, ast.Constant) and k.value == "retain_names" for k in value.keys):
+            defaults = target
+    func = ctx.repo.function(OPT, "set_options")
+    module_names = {t.id for node in module.tree.body if isinstance(node, (ast.Assign, ast.AnnAssign))
+                    for t in (node.targets if isinstance(node, ast.Assign) else [node.target]) if isinstance(t, ast.Name)}
+    written = None
+    for node in ast.walk(func):
+        root = None
+        if isinstance(node, ast.Call) and isinstance(node.func, ast.Attribute) and node.func.attr in ("update", "__setitem__", "setdefault"):
+            root = node.func.value
+        elif isinstance(node, (ast.Assign, ast.AugAssign)):
+            for tgt in (node.targets if isinstance(node, ast.Assign) else [node.target]):
+                if isinstance(tgt, ast.Subscript):
+                    root = tgt.value
+        # follow plain local aliases (parameter bindings of inlined helpers)
+        for _ in range(4):
+            if isinstance(root, ast.Name) and root.id not in module_names:
+                values = [n.value for n in ast.walk(func) if isinstance(n, ast.Assign) and len(n.targets) == 1
+                          and isinstance(n.targets[0], ast.Name) and n.targets[0].id == root.id]
+                root = values[0] if len(values) == 1 else None
+        if isinstance(root, ast.Name) and root.id in module_names and root.id != defaults:
+            written = root.id
+    if defaults is None:
+        raise AnalysisError("numpoly/option.py: the dict literal of option defaults was not found")
+    DEFAULTS = f"{OPT}.{defaults}"
+    if written is not None:
+        TABLE = f"{OPT}.{written}"
+
+
 def run_table(ctx) -> RuleResult:
+    _discover_tables(ctx)
     result = RuleResult("R-OPT-TABLE", "O1-O5: snapshot before set, restore in finally from the "
                         "snapshot, validate all then mutate, detached copies, only set_options writes; "
                         "O9: library code that calls set_options restores what it changed on every exit; "
@@ -977,6 +1050,7 @@ def run_table(ctx) -> RuleResult:
 
 
 def run_layers(ctx) -> RuleResult:
+    _discover_tables(ctx)
     result = RuleResult("R-OPT-LAYERS", "O6: each option key is read only by the layer it is "
                         "documented to influence; retain_* only as default of a None argument")
     _o6(ctx, result)
@@ -985,6 +1059,7 @@ def run_layers(ctx) -> RuleResult:
 
 
 def run_pairing(ctx) -> RuleResult:
+    _discover_tables(ctx)
     result = RuleResult("R-OPT-PAIRING", "O7: graded=/reverse= receive the *_graded/*_reverse key "
                         "of the right family, or the function's own graded/reverse parameters")
     _o7(ctx, result)
@@ -994,6 +1069,7 @@ def run_pairing(ctx) -> RuleResult:
 
 
 def run_pinned(ctx) -> RuleResult:
+    _discover_tables(ctx)
     result = RuleResult("R-OPT-PINNED", "O8: layout-critical constructions pass literal retain flags")
     _o8(ctx, result)
     result.floor = 4
